@@ -336,6 +336,7 @@ def run(chk: Check):
         "brace; (F3) that every `{` / `:` / `}` / closing quote pushes and pops exactly the modes and bracket depth it should; (F4) "
         "the conversion check accepts exactly s r a (finite-domain evaluation), the conversion value expression, and that a format "
         "spec is a JoinedStr. Deviations present today are listed known findings.")
+    chk.explanation += ' (F5) literal text is escape-decoded and named escapes do not open a field, (F6) a debug field contributes its source text, (F7) every operator lexeme that begins with a colon enters the format-spec branch; plus the accumulation rules (C08 L1/L2) and location rules f-string tokens and trees share with other strings.'
     chk.trusted = ["xpverif.constfold", "xpverif.rx", "xpverif.absint (rule result types)"]
     chk.assumptions = ["C01/C04 rules cover the f-string grammar actions like all others"]
     ix = Index()
